@@ -28,7 +28,7 @@ ASSUMPTIONS = [
     "the estimator is evaluated on models whose stored weights are already quantized (so raw == quantized weights)",
 ]
 TIMEOUT = {"quick": 1200, "thorough": 5400}
-WFAM = ["fixed", "fixed", "auto_po2", "po2", "po2_le1", "po2_mv", "binary", "ternary"]
+WFAM = ["fixed", "fixed", "auto_po2", "po2", "po2_le1", "po2_mv", "binary", "ternary", "sbinary", "sternary"]
 
 
 def thresholds(tier):
@@ -51,14 +51,19 @@ def wq_of(fam, rnd):
     return Qd("quantized_po2", bits=rnd.choice([4, 5]), max_value=rnd.choice([3.0, 6.0, 12.0, 5.0]))
   if fam == "binary":
     return Qd("binary", alpha=1.0)
+  if fam == "sbinary":       # the stochastic members of the two families: the same value sets at inference
+    return Qd("stochastic_binary", alpha=1.0)
+  if fam == "sternary":
+    return Qd("stochastic_ternary", alpha=1.0)
   return Qd("ternary", alpha=1.0)
 
 
 def cases(tier, seed):
   n = 96 if tier == "quick" else 1500
   out = []
-  FOCUS = [("seq", "auto_po2"), ("seq", "auto_po2"), ("vec", "po2_mv"), ("img", "po2_mv"), ("seq", "po2_mv"), ("img", "auto_po2")]
-  nf = 12 if tier == "quick" else 120
+  FOCUS = [("seq", "auto_po2"), ("seq", "auto_po2"), ("vec", "po2_mv"), ("img", "po2_mv"), ("seq", "po2_mv"), ("img", "auto_po2"),
+           ("vec", "sbinary"), ("img", "sternary"), ("vec", "fixed", "relu1"), ("img", "fixed", "relu1")]
+  nf = 20 if tier == "quick" else 200
   for i in range(n + nf):
     rnd = random.Random(seed * 6007 + i)
     nm = _Names()
@@ -80,6 +85,9 @@ def cases(tier, seed):
     src = rnd.choice([Qd("quantized_bits", bits=rnd.choice([3, 4, 6]), integer=rnd.choice([0, 1, 2]), symmetric=1),
                       Qd("quantized_bits", bits=rnd.choice([3, 4]), integer=0, symmetric=0, keep_negative=False),
                       Qd("quantized_relu", bits=rnd.choice([3, 4]), integer=rnd.choice([0, 1]))])
+    relu1 = bool(focus and len(focus) > 2) or rnd.random() < 0.05
+    if relu1:      # a one-bit ReLU input type: levels {0, 2^(integer-1)}, not {0, 1}
+      src = Qd("quantized_relu", bits=1, integer=rnd.choice([0, 0, 2]))
     rank = len(shape) + 1
     nw = rnd.randint(1, 3)
     for li in range(nw):
@@ -87,6 +95,8 @@ def cases(tier, seed):
       if focus and li == 0:
         fam = focus[1]
       ub = bool(rnd.randint(0, 1))
+      if relu1 and li == 0 and focus:
+        ub = False
       bq = rnd.choice([Qd("quantized_bits", bits=rnd.choice([4, 6]), integer=rnd.choice([0, 2]), symmetric=1),
                        Qd("quantized_po2", bits=4)]) if ub else None
       kw = {"use_bias": ub, "bias_quantizer": bq}
@@ -104,7 +114,7 @@ def cases(tier, seed):
         layers.append({"t": "QConv1D", "name": nm("conv1d"), "kw": dict(kw, filters=rnd.randint(1, 3), kernel_size=rnd.choice([1, 2, min(3, shape[0])]),
                                                                         padding=rnd.choice(["valid", "same", "causal"]), kernel_quantizer=wq_of(fam, rnd)), "fam": fam})
       if li < nw - 1 or rnd.random() < 0.5:
-        aq = rnd.choice([Qd("quantized_relu", bits=rnd.choice([2, 3, 4]), integer=rnd.choice([0, 1])),
+        aq = rnd.choice([Qd("quantized_relu", bits=rnd.choice([1, 2, 3, 4]), integer=rnd.choice([0, 1])),
                          Qd("quantized_bits", bits=rnd.choice([3, 4]), integer=rnd.choice([0, 1]), symmetric=1),
                          Qd("binary", alpha=1.0), Qd("ternary", alpha=1.0)])
         layers.append({"t": "QActivation", "name": nm("act"), "kw": {"activation": aq}})
